@@ -132,6 +132,15 @@ func patchGoMod(dir, root, plainDir string) error {
 	return os.WriteFile(p, []byte(s), 0o644)
 }
 
+// OutRoot is where evidence and replay files are written: /verif, or $VERIF_OUT (used to run
+// several checks against different trees side by side).
+func (e *Env) OutRoot() string {
+	if o := os.Getenv("VERIF_OUT"); o != "" {
+		return o
+	}
+	return e.Root
+}
+
 // Prepare snapshots the tree and builds the requested worker variants
 // ("plain", "inst", "race").
 func (e *Env) Prepare(variants ...string) error {
